@@ -419,10 +419,15 @@ RESERVED_CLASS = set()      # filled from the model's table in run()
 FIELD_RESERVED = set()
 
 
-def plain_chars(iso):
-    base = [c for c in (string.ascii_letters + string.digits + ' _-.@#$%^*()[]{}?/|~`+=,;:!') ]
+def plain_chars(iso, edge=False):
+    """characters that need no escaping; edge=True adds the ones that are legal but odd (tab, DEL, C1 controls, NBSP)"""
+    base = [c for c in (string.ascii_letters + string.digits + ' _-.@#$%^*()[]{}?/|~`+=,;:!')]
+    if edge:
+        base += ['\t', '\x7f']
     if iso:
         base += [chr(c) for c in range(0xa1, 0x100)]
+        if edge:
+            base += ['\x80', '\x85', '\x9f', '\xa0']
     return base
 
 
@@ -435,10 +440,11 @@ def gen_const(rng, tid, special=None):
         v = rng.choice([lo, hi, 0, 1, 9, 10]) if rng.random() < 0.3 else rng.randint(max(lo, -1000), min(hi, 1000))
         return str(v)
     iso = d[1]
+    edge = d[0] != 'fixed' and rng.random() < 0.15      # fixed strings are stripped on decode (C01): keep them plain
     if d[0] == 'char':
-        return special if special else rng.choice(plain_chars(iso))
+        return special if special else rng.choice(plain_chars(iso, edge))
     n = rng.randint(0, 6)
-    s = ''.join(rng.choice(plain_chars(iso)) for _ in range(n))
+    s = ''.join(rng.choice(plain_chars(iso, edge)) for _ in range(n))
     if special:
         s = s[:2] + special + s[2:]
     return s
@@ -700,14 +706,21 @@ def worker_case(case, err_name):
         cg = importlib.import_module(f'nasdaq_protocols.{case["impl"]}.codegen')
         try:
             with contextlib.redirect_stdout(io.StringIO()):
-                cg.generate.callback(spec_file=spec_file, app_name=case['app'], prefix='', op_dir=op_dir,
+                cg.generate.callback(spec_file=spec_file, app_name=case['app'], prefix=case.get('prefix', ''), op_dir=op_dir,
                                      override_messages=case['override'], init_file=case.get('init_file', False))
             res['gen'] = 'ok'
         except Exception as e:   # noqa
             res['gen'] = 'err ' + err_name(e).split(':')[0]
             res['gen_detail'] = f'{type(e).__name__}: {e}'[:300]
             return res
-        path = os.path.join(op_dir, f'{case["impl"]}_{case["app"]}.py')
+        stem = (case['prefix'] + '_' if case.get('prefix') else '') + f'{case["impl"]}_{case["app"]}'
+        path = os.path.join(op_dir, stem + '.py')
+        if case.get('init_file'):
+            try:
+                init = open(os.path.join(op_dir, '__init__.py'), encoding='utf-8').read()
+            except OSError:
+                init = ''
+            res['init_ok'] = init.strip() == f'from .{stem} import *'      # (C17 owns the file-level behaviour)
         text = open(path, encoding='utf-8').read()
         res['text_tail'] = text[text.find('# Enums'):][:6000]
         res['code'] = abstract_code(text)
@@ -1035,12 +1048,14 @@ class Case:
     def __init__(self, cid, cls, impl, spec, override=True, kind=None):
         self.id, self.cls, self.impl, self.spec, self.override, self.kind = cid, cls, impl, spec, override, kind
         self.app = f'a{cid}'
+        self.prefix, self.init_file = '', False
         self.xml = spec_xml(spec)
         self.ref = None            # (canonical sexp text, rich) or RefError text
         self.values = []           # [(msg dict, plain, transport, app_decode)]
 
     def job(self):
         return {'id': self.id, 'impl': self.impl, 'app': self.app, 'override': self.override, 'xml': self.xml,
+                'prefix': self.prefix, 'init_file': self.init_file,
                 'values': [{'msg': m['name'], 'fields': tr, 'app_decode': ad, 'tail': tail} for m, _p, tr, ad, tail in self.values]}
 
     def replay_dict(self, kind=None, **extra):
@@ -1089,6 +1104,8 @@ def judge(ctx, case, res, model):
         impl_eval = 'err import ' + res['imp'][4:]
     else:
         impl_eval = 'ok ' + res['schema']['schema']
+    if res.get('init_ok') is False:
+        ctx.count('init-file-not-the-single-import-line')
     ctx.count(f'{case.cls}:{case.kind or "wf"}:{" ".join(impl_eval.split()[:3]) if impl_eval.startswith("err") else "ok"}')
     # ---------------- correspondence
     if model:
@@ -1257,6 +1274,12 @@ def shrink(ctx, case, stage, budget=45):
                 s2 = copy.deepcopy(spec)
                 del s2[sec][i]
                 cands.append(s2)
+        for i, en in enumerate(spec['enums']):
+            for j in range(len(en['values'])):
+                if len(en['values']) > 1:
+                    s2 = copy.deepcopy(spec)
+                    del s2['enums'][i]['values'][j]
+                    cands.append(s2)
         for sec in ('messages', 'records'):
             for i, cont in enumerate(spec[sec]):
                 for j in range(len(cont['fields'])):
@@ -1382,7 +1405,7 @@ def lean_witnesses(ctx):
 def run(ctx):
     rng = ctx.rng
     quick = ctx.tier == 'quick'
-    n_wf = 260 if quick else 5000
+    n_wf = 260 if quick else 12000
     n_mal = 3 if quick else 30                 # per malformed kind
     n_known = 4 if quick else 40               # per known-defect shape
     n_values = 3 if quick else 6
@@ -1409,7 +1432,9 @@ def run(ctx):
     k = 0
     for _ in range(n_wf):
         impl, spec = gen_wf_spec(rng, ctx.tier)
-        cases.append(Case(f'w{k}', 'wf', impl, spec))
+        c = Case(f'w{k}', 'wf', impl, spec)
+        c.prefix, c.init_file = rng.choice(['', '', 'pfx']), rng.random() < 0.3
+        cases.append(c)
         k += 1
     for sig in KNOWN_LOCAL:
         for _ in range(n_known):
